@@ -160,6 +160,31 @@ impl std::fmt::Debug for SimEngine {
 }
 
 impl SimEngine {
+    /// The durable image of `local` (persisted replica state + stored blocks).
+    pub fn from_local(w: &World, local: &Local) -> Self {
+        let blocks: Vec<validator::Block> = local.blocks.iter().cloned().map(validator::Block::FinalV2).collect();
+        let last = local.blocks.last().map(|b| Last::FinalV2(b.justification.clone()));
+        SimEngine(Arc::new(SimEngineInner {
+            genesis: w.c.genesis.clone(),
+            persisted: sync::watch::channel(BlockStoreState { first: w.c.genesis.first_block, last }).0,
+            blocks: Mutex::new(blocks),
+            state: Mutex::new(local.durable.clone()),
+            proposals: w.proposals.clone(),
+            invalid: w.invalid_payload.clone(),
+            set_state_calls: AtomicUsize::new(0),
+            crash: None,
+            crashed: AtomicBool::new(false),
+            bad_store_request: Mutex::new(None),
+        }))
+    }
+    pub fn stored_blocks(&self) -> usize {
+        self.0.blocks.lock().unwrap().len()
+    }
+    pub fn durable_view(&self) -> u64 {
+        let ReplicaState::V2(d) = &*self.0.state.lock().unwrap();
+        d.view_number.0
+    }
+
     /// An empty store for the given instance (used by harnesses that only need an EngineManager).
     pub fn new_empty(w: &World) -> Self {
         SimEngine(Arc::new(SimEngineInner {
@@ -407,4 +432,137 @@ pub fn step(w: &World, idx: usize, local: &Local, input: &Input, policy: &Policy
         out.local = out.local.restarted();
     }
     out
+}
+
+
+// ---------------------------------------------------------------------------------------------
+// The real `Config::run` loops (StateMachine::run + run_proposer) of several nodes on the controlled
+// runtime: used by C06 for good periods in which the view timers, the view-0 bootstrap and the
+// proposer task are the implementation's own.
+
+#[derive(Debug)]
+pub struct RunLoopsOut {
+    pub ok: bool,
+    pub rounds: u32,
+    pub why: String,
+    pub messages_routed: u64,
+    pub stored_at_start: Vec<usize>,
+    pub stored_at_end: Vec<usize>,
+    pub views_at_end: Vec<u64>,
+}
+
+/// Starts one real node per entry of `nodes` (validator index, durable image) — `Config::run` over a
+/// real `EngineManager` — connects them with a reliable network (every message goes to every node,
+/// the sender included, in send order, through the real `create_input_channel()`), serves missing
+/// finalized blocks at quiescent points, and advances the manual clock by one view timeout whenever
+/// nothing else can happen. Progress = every node stores a block it did not have at the start.
+/// Runs under the controlled scheduler with the choice sequence of `ch`.
+pub fn run_loops(ch: &core::Ch, w: &World, nodes: &[(usize, Local)], max_rounds: u32) -> RunLoopsOut {
+    use zksync_consensus_network::io::{ConsensusInputMessage, ConsensusReq};
+    let engines: Vec<SimEngine> = nodes.iter().map(|(_, l)| SimEngine::from_local(w, l)).collect();
+    let stored_at_start: Vec<usize> = engines.iter().map(|e| e.stored_blocks()).collect();
+    let engines2 = engines.clone();
+    let start2 = stored_at_start.clone();
+    let (ok, rounds, why, routed) = sched::run(ch, |idle| async move {
+        let clock = ctx::ManualClock::new();
+        let root = ctx::test_root(&clock);
+        let n = nodes.len();
+        let mut mgrs = vec![];
+        let mut runners = vec![];
+        for e in &engines2 {
+            let (m, r) = EngineManager::new(&root, Box::new(e.clone()), time::Duration::seconds(1)).await.expect("EngineManager::new");
+            mgrs.push(m);
+            runners.push(r);
+        }
+        let mut in_send = vec![];
+        let mut in_recv = vec![];
+        let mut out_send = vec![];
+        let mut out_recv = vec![];
+        for _ in 0..n {
+            let (s, r) = zksync_consensus_bft::create_input_channel();
+            in_send.push(s);
+            in_recv.push(r);
+            let (s, r) = ctx::channel::unbounded::<ConsensusInputMessage>();
+            out_send.push(s);
+            out_recv.push(r);
+        }
+        let routed = std::sync::atomic::AtomicU64::new(0);
+        let errors: Mutex<Vec<String>> = Mutex::new(vec![]);
+        let (mgrs, in_send, routed, errors, engines2, start2, idle, clock, root) = (&mgrs, &in_send, &routed, &errors, &engines2, &start2, &idle, &clock, &root);
+        let fut = async move {
+            scope::run!(root, |ctx, s| async move {
+                for r in runners {
+                    s.spawn_bg(async move {
+                        if let Err(e) = r.run(ctx).await {
+                            errors.lock().unwrap().push(format!("engine runner: {e:#}"));
+                        }
+                        Ok(())
+                    });
+                }
+                for (i, ((recv, osend), (idx, _))) in in_recv.into_iter().zip(out_send).zip(nodes.iter()).enumerate() {
+                    let cfg = Config::new(w.c.keys[*idx].clone(), MAX_PAYLOAD, time::Duration::seconds(VIEW_TIMEOUT_S), mgrs[i].clone(), w.c.epoch).expect("Config::new");
+                    s.spawn_bg(async move {
+                        if let Err(e) = cfg.run(ctx, osend, recv).await {
+                            errors.lock().unwrap().push(format!("bft component of v{idx}: {e:#}"));
+                        }
+                        Ok(())
+                    });
+                }
+                for mut orecv in out_recv {
+                    s.spawn_bg(async move {
+                        while let Ok(m) = orecv.recv(ctx).await {
+                            routed.fetch_add(1, SeqCst);
+                            for dst in in_send.iter() {
+                                let (ack, _ack_recv) = zksync_concurrency::oneshot::channel();
+                                dst.send(ConsensusReq { msg: m.message.clone(), ack });
+                            }
+                        }
+                        Ok(())
+                    });
+                }
+                // driver
+                let mut rounds = 0u32;
+                loop {
+                    idle.settle().await;
+                    if let Some(e) = errors.lock().unwrap().first() {
+                        return Ok((false, rounds, format!("a component stopped with an error: {e}")));
+                    }
+                    if engines2.iter().zip(start2.iter()).all(|(e, s)| e.stored_blocks() > *s) {
+                        return Ok((true, rounds, String::new()));
+                    }
+                    // block sync: a node that lacks a block some other node has gets it
+                    let mut synced = false;
+                    for j in 0..n {
+                        let next = mgrs[j].queued().next();
+                        for i in 0..n {
+                            if i == j {
+                                continue;
+                            }
+                            if let Ok(Some(b)) = mgrs[i].get_block(ctx, next).await {
+                                let _ = mgrs[j].queue_block(ctx, b).await;
+                                synced = true;
+                                break;
+                            }
+                        }
+                    }
+                    if synced {
+                        continue;
+                    }
+                    if rounds >= max_rounds {
+                        return Ok((false, rounds, format!("no new block after {rounds} view timeouts with reliable delivery")));
+                    }
+                    rounds += 1;
+                    clock.advance(time::Duration::seconds(VIEW_TIMEOUT_S) + time::Duration::milliseconds(1));
+                }
+            })
+            .await
+        };
+        let r: Result<(bool, u32, String), ctx::Error> = match sched::drive(idle, fut, |k| k < 100_000).await {
+            sched::Driven::Done(r) => r,
+            sched::Driven::Stuck => Ok((false, 0, "the driver itself got stuck".into())),
+        };
+        let (ok, rounds, why) = r.unwrap_or_else(|e| (false, 0, format!("scope error: {e:?}")));
+        (ok, rounds, why, routed.load(SeqCst))
+    });
+    RunLoopsOut { ok, rounds, why, messages_routed: routed, stored_at_start, stored_at_end: engines.iter().map(|e| e.stored_blocks()).collect(), views_at_end: engines.iter().map(|e| e.durable_view()).collect() }
 }
